@@ -38,7 +38,7 @@ RoundTrip == LET b == Enc(v)
                  r == Dec(b, 1) IN
              /\ WellFormed(v)
              /\ r.ok /\ r.v = v /\ r.next = Len(b) + 1
-             /\ DecStream(b) = [vals |-> <<v>>, st |-> "complete", at |-> Len(b) + 1]
+             /\ DecStream(b) = [vals |-> <<v>>, st |-> "complete", at |-> Len(b) + 1, from |-> Len(b) + 1]
              /\ Enc(r.v) = b
 
 \* the bulk length prefix equals the payload length, whatever the payload holds
